@@ -4,8 +4,8 @@ package bfe_server
 //
 // The REAL ReverseProxy.clusterInvoke and ReverseProxy.FinishReq are run on a hand-built BfeServer:
 //   - a real bfe_balance.BalTable built with BalTableReload from config structs: one cluster "c" with
-//     sub-clusters s0, s1 (1..NB backends each) and optionally GSLB_BLACKHOLE (one backend), symbolic
-//     sub-cluster weights, symbolic availability of every backend;
+//     sub-clusters s0, s1 (1..NB backends each) and optionally GSLB_BLACKHOLE (one backend), sub-cluster
+//     weights from a table of sign patterns, symbolic availability of every backend;
 //   - a real bfe_cluster.BfeCluster (BasicInit) with symbolic RetryLevel, real BalanceGslb.SetGslbBasic
 //     with symbolic RetryMax / CrossRetry, health-check conf with symbolic FailNum (so that OnFail may
 //     take a backend out of service between attempts);
@@ -37,7 +37,7 @@ import (
 // fault kinds of one RoundTrip call: every error type that clusterInvoke's switch names, plus an
 // error of an unnamed type.
 const (
-	fOkC07 = iota
+	fOkC07          = iota
 	fConnC07        // bfe_http.ConnectError
 	fWriteC07       // bfe_http.WriteRequestError
 	fOtherC07       // an error type the switch does not name
